@@ -165,6 +165,18 @@ theorem le_divCeil_mul (a b : Nat) (hb : 0 < b) : a ≤ divCeil a b * b := by
   generalize (a + b - 1) / b * b = q at h
   omega
 
+/-- the buffer (current length `len`) stays a `usize` during `n` more `add`s: either the whole history is
+    shorter than `2^64`, or the buffer size is a non-zero `usize` (then the buffer stays below it) -/
+def HistBound (len bufSize n : Nat) : Prop := len + n < 2 ^ 64 ∨ (bufSize < 2 ^ 64 ∧ len < bufSize)
+
+theorem HistBound.zero {len bs : Nat} (h : HistBound len bs 0) : len < 2 ^ 64 := by
+  unfold HistBound at h; omega
+theorem HistBound.succ_lt {len bs n : Nat} (h : HistBound len bs (n + 1)) : len + 1 < 2 ^ 64 := by
+  unfold HistBound at h; omega
+theorem HistBound.step {len len' bs n : Nat} (h : HistBound len bs (n + 1)) (h1 : len' ≤ len + 1)
+    (h2 : len < bs → len' < bs) : HistBound len' bs n := by
+  unfold HistBound at h ⊢; omega
+
 section Chunks
 variable {G : Type} [AddCommGroup G] {cfg : Cfg} {P : List Nat → Prop}
 
@@ -345,38 +357,49 @@ theorem Chunked.finalize_inv (ok : MsmOK G cfg P) {s : Chunked G} {total : G}
   · simp only [he, Bool.not_false, if_true]
     rw [ok.spec _ _ hP (by omega), obind_ok_eq, hs]
 
+/-- one step of the length bookkeeping -/
+theorem Chunked.histBound_step {s s' : Chunked G} (b : G) (k : List Nat) {n : Nat}
+    (hB : HistBound s.scalarsBuffer.length s.bufSize (n + 1)) (hs : s.add cfg b k = .ok s')
+    (hbs : s'.bufSize = s.bufSize) (hle : s'.scalarsBuffer.length ≤ s.scalarsBuffer.length + 1) :
+    HistBound s'.scalarsBuffer.length s'.bufSize n := by
+  rw [hbs]
+  refine hB.step hle (fun hlt => ?_)
+  have := Chunked.add_buffer_lt (cfg := cfg) b k (fun _ => hlt) hs (by rw [hbs]; omega)
+  rwa [hbs] at this
+
 theorem Chunked.addAll_inv (ok : MsmOK G cfg P) :
     ∀ (adds : List (G × List Nat)) (s : Chunked G) (total : G), Chunked.Inv P s total →
-      (∀ a ∈ adds, P a.2) → s.scalarsBuffer.length + adds.length < 2 ^ 64 →
+      (∀ a ∈ adds, P a.2) → HistBound s.scalarsBuffer.length s.bufSize adds.length →
       ∃ s', Chunked.addAll cfg s adds = .ok s' ∧ s'.bufSize = s.bufSize ∧
-        s'.scalarsBuffer.length ≤ s.scalarsBuffer.length + adds.length ∧
-        Chunked.Inv P s' (total + pairSum adds) := by
+        s'.scalarsBuffer.length < 2 ^ 64 ∧ Chunked.Inv P s' (total + pairSum adds) := by
   intro adds
   induction adds with
-  | nil => intro s total h _ _; exact ⟨s, rfl, rfl, by simp, by simpa using h⟩
+  | nil => intro s total h _ hB; exact ⟨s, rfl, rfl, hB.zero, by simpa using h⟩
   | cons a adds ih =>
-    intro s total h hP hlen
+    intro s total h hP hB
     obtain ⟨b, k⟩ := a
-    rw [List.length_cons] at hlen
-    obtain ⟨s₁, h₁, hb₁, hl₁, hi₁⟩ := Chunked.add_inv ok h b k (hP (b, k) (by simp)) (by omega)
-    obtain ⟨s₂, h₂, hb₂, hl₂, hi₂⟩ := ih s₁ _ hi₁ (fun a ha => hP a (by simp [ha])) (by omega)
-    refine ⟨s₂, ?_, by rw [hb₂, hb₁], by rw [List.length_cons]; omega, ?_⟩
+    rw [List.length_cons] at hB
+    obtain ⟨s₁, h₁, hb₁, hl₁, hi₁⟩ := Chunked.add_inv ok h b k (hP (b, k) (by simp)) hB.succ_lt
+    have hB₁ := Chunked.histBound_step b k hB h₁ hb₁ hl₁
+    obtain ⟨s₂, h₂, hb₂, hl₂, hi₂⟩ := ih s₁ _ hi₁ (fun a ha => hP a (by simp [ha])) hB₁
+    refine ⟨s₂, ?_, by rw [hb₂, hb₁], hl₂, ?_⟩
     · simp only [Chunked.addAll, h₁, obind_ok_eq, h₂]
     · simpa [add_assoc] using hi₂
 
 theorem Chunked.run_go_spec (ok : MsmOK G cfg P) (adds : List (G × List Nat)) (s : Chunked G)
     (total : G) (h : Chunked.Inv P s total) (hP : ∀ a ∈ adds, P a.2)
-    (hlen : s.scalarsBuffer.length + adds.length < 2 ^ 64) :
+    (hB : HistBound s.scalarsBuffer.length s.bufSize adds.length) :
     Chunked.run.go cfg s adds = .ok (total + pairSum adds) := by
-  obtain ⟨s', h₁, _, hl, hi⟩ := Chunked.addAll_inv ok adds s total h hP hlen
-  rw [Chunked.run_go_eq, h₁, obind_ok_eq, Chunked.finalize_inv ok hi (by omega)]
+  obtain ⟨s', h₁, _, hl, hi⟩ := Chunked.addAll_inv ok adds s total h hP hB
+  rw [Chunked.run_go_eq, h₁, obind_ok_eq, Chunked.finalize_inv ok hi hl]
 
 theorem Chunked.run_ok (ok : MsmOK G cfg P) (bufSize : Nat) (adds : List (G × List Nat))
-    (hP : ∀ a ∈ adds, P a.2) (hlen : adds.length < 2 ^ 64) :
+    (hP : ∀ a ∈ adds, P a.2) (hB : adds.length < 2 ^ 64 ∨ (0 < bufSize ∧ bufSize < 2 ^ 64)) :
     Chunked.run cfg bufSize adds = .ok (pairSum adds) := by
   unfold Chunked.run
-  rw [Chunked.run_go_spec ok adds _ 0 (Chunked.new_inv bufSize) hP (by simpa [Chunked.new] using hlen),
-    zero_add]
+  rw [Chunked.run_go_spec ok adds _ 0 (Chunked.new_inv bufSize) hP ?_, zero_add]
+  simp only [Chunked.new, HistBound, List.length_nil, Nat.zero_add]
+  omega
 
 end Chunked
 
@@ -570,30 +593,61 @@ theorem HashMapAcc.flush_perm (ok : MsmOK G cfg P) (hrB : cfg.r ≤ B ^ cfg.limb
     HashMapAcc.flush_ok ok hrB hP buf' (fun e he => h e (hp.mem_iff.2 he)) (by rw [← hp.length_eq]; exact hlen),
     natPairSum_perm hp]
 
+omit [AddCommGroup G] in
+theorem upsert_length_le (r : Nat) (base : G) (k : Nat) (buf : List (G × Nat)) :
+    (upsert r base k buf).length ≤ buf.length + 1 := by
+  rw [upsert_length]; split <;> omega
+
 theorem HashMapAcc.add_inv (ok : MsmOK G cfg P) (hr0 : 0 < cfg.r) (hrB : cfg.r ≤ B ^ cfg.limbs)
     (hP : ∀ v < cfg.r, P (cfg.intoBigint v)) {s : HashMapAcc G} {total : G}
-    (h : HashMapAcc.Inv cfg s total) (b : G) (k : Nat) (hb : cfg.r • b = 0) :
-    ∃ s', s.add cfg b k = .ok s' ∧ s'.bufSize = s.bufSize ∧ HashMapAcc.Inv cfg s' (total + k • b) := by
+    (h : HashMapAcc.Inv cfg s total) (b : G) (k : Nat) (hb : cfg.r • b = 0)
+    (hlen : s.buffer.length + 1 < 2 ^ 64) :
+    ∃ s', s.add cfg b k = .ok s' ∧ s'.bufSize = s.bufSize ∧ s'.buffer.length ≤ s.buffer.length + 1 ∧
+      HashMapAcc.Inv cfg s' (total + k • b) := by
   obtain ⟨hn, hlt, hs⟩ := h
   have hlt' := upsert_lt cfg.r hr0 b k s.buffer hlt
   have hn' := upsert_nodup cfg.r b k s.buffer hn
   have hsum := upsert_sum cfg.r b k hb s.buffer
+  have hle := upsert_length_le cfg.r b k s.buffer
   unfold HashMapAcc.add
   by_cases hfull : (upsert cfg.r b k s.buffer).length = s.bufSize
   · simp only [hfull, if_true]
-    rw [HashMapAcc.flush_ok ok hrB hP _ hlt', obind_ok_eq]
-    refine ⟨_, rfl, rfl, by simp, by simp, ?_⟩
+    rw [HashMapAcc.flush_ok ok hrB hP _ hlt' (by omega), obind_ok_eq]
+    refine ⟨_, rfl, rfl, by simp, by simp, by simp, ?_⟩
     simp only [natPairSum_nil, add_zero]
     rw [hsum, ← hs, add_assoc]
   · simp only [hfull, if_false]
-    refine ⟨_, rfl, rfl, hn', hlt', ?_⟩
+    refine ⟨_, rfl, rfl, hle, hn', hlt', ?_⟩
     simp only
     rw [hsum, ← hs, add_assoc]
+
+/-- the map never reaches `bufSize` entries (for `bufSize ≠ 0`) -/
+theorem HashMapAcc.add_buffer_lt {s s' : HashMapAcc G} (b : G) (k : Nat)
+    (h : s.bufSize ≠ 0 → s.buffer.length < s.bufSize) (hs : s.add cfg b k = .ok s') :
+    s'.bufSize ≠ 0 → s'.buffer.length < s'.bufSize := by
+  have hle := upsert_length_le cfg.r b k s.buffer
+  unfold HashMapAcc.add at hs
+  by_cases hfull : (upsert cfg.r b k s.buffer).length = s.bufSize
+  · simp only [hfull, if_true] at hs
+    cases hm : msmBigint cfg ((upsert cfg.r b k s.buffer).map (·.1))
+        ((upsert cfg.r b k s.buffer).map (fun e => cfg.intoBigint e.2)) with
+    | panic => rw [hm] at hs; cases hs
+    | ok r =>
+      rw [hm, obind_ok_eq] at hs
+      cases hs
+      intro h0
+      exact Nat.pos_of_ne_zero h0
+  · simp only [hfull, if_false] at hs
+    cases hs
+    intro h0
+    have := h h0
+    show (upsert cfg.r b k s.buffer).length < s.bufSize
+    omega
 
 omit [DecidableEq G] in
 theorem HashMapAcc.finalize_inv (ok : MsmOK G cfg P) (hrB : cfg.r ≤ B ^ cfg.limbs)
     (hP : ∀ v < cfg.r, P (cfg.intoBigint v)) {s : HashMapAcc G} {total : G}
-    (h : HashMapAcc.Inv cfg s total) : s.finalize cfg = .ok total := by
+    (h : HashMapAcc.Inv cfg s total) (hlen : s.buffer.length < 2 ^ 64) : s.finalize cfg = .ok total := by
   obtain ⟨_, hlt, hs⟩ := h
   unfold HashMapAcc.finalize
   by_cases he : s.buffer.isEmpty
@@ -601,39 +655,56 @@ theorem HashMapAcc.finalize_inv (ok : MsmOK G cfg P) (hrB : cfg.r ≤ B ^ cfg.li
     rw [List.isEmpty_iff] at he
     rw [he] at hs; simpa using hs
   · simp only [he, Bool.not_false, if_true]
-    rw [HashMapAcc.flush_ok ok hrB hP _ hlt, obind_ok_eq, hs]
+    rw [HashMapAcc.flush_ok ok hrB hP _ hlt hlen, obind_ok_eq, hs]
+
+/-- one step of the length bookkeeping for the hash-map accumulator -/
+theorem HashMapAcc.histBound_step {s s' : HashMapAcc G} (b : G) (k : Nat) {n : Nat}
+    (hB : HistBound s.buffer.length s.bufSize (n + 1)) (hs : s.add cfg b k = .ok s')
+    (hbs : s'.bufSize = s.bufSize) (hle : s'.buffer.length ≤ s.buffer.length + 1) :
+    HistBound s'.buffer.length s'.bufSize n := by
+  rw [hbs]
+  refine hB.step hle (fun hlt => ?_)
+  have := HashMapAcc.add_buffer_lt (cfg := cfg) b k (fun _ => hlt) hs (by rw [hbs]; omega)
+  rwa [hbs] at this
 
 theorem HashMapAcc.addAll_inv (ok : MsmOK G cfg P) (hr0 : 0 < cfg.r) (hrB : cfg.r ≤ B ^ cfg.limbs)
     (hP : ∀ v < cfg.r, P (cfg.intoBigint v)) :
     ∀ (adds : List (G × Nat)) (s : HashMapAcc G) (total : G), HashMapAcc.Inv cfg s total →
-      (∀ a ∈ adds, cfg.r • a.1 = 0) →
+      (∀ a ∈ adds, cfg.r • a.1 = 0) → HistBound s.buffer.length s.bufSize adds.length →
       ∃ s', HashMapAcc.addAll cfg s adds = .ok s' ∧ s'.bufSize = s.bufSize ∧
-        HashMapAcc.Inv cfg s' (total + natPairSum adds) := by
+        s'.buffer.length < 2 ^ 64 ∧ HashMapAcc.Inv cfg s' (total + natPairSum adds) := by
   intro adds
   induction adds with
-  | nil => intro s total h _; exact ⟨s, rfl, rfl, by simpa using h⟩
+  | nil => intro s total h _ hB; exact ⟨s, rfl, rfl, hB.zero, by simpa using h⟩
   | cons a adds ih =>
-    intro s total h hord
+    intro s total h hord hB
     obtain ⟨b, k⟩ := a
-    obtain ⟨s₁, h₁, hb₁, hi₁⟩ := HashMapAcc.add_inv ok hr0 hrB hP h b k (hord (b, k) (by simp))
-    obtain ⟨s₂, h₂, hb₂, hi₂⟩ := ih s₁ _ hi₁ (fun a ha => hord a (by simp [ha]))
-    refine ⟨s₂, ?_, by rw [hb₂, hb₁], ?_⟩
+    rw [List.length_cons] at hB
+    obtain ⟨s₁, h₁, hb₁, hl₁, hi₁⟩ :=
+      HashMapAcc.add_inv ok hr0 hrB hP h b k (hord (b, k) (by simp)) hB.succ_lt
+    have hB₁ := HashMapAcc.histBound_step b k hB h₁ hb₁ hl₁
+    obtain ⟨s₂, h₂, hb₂, hl₂, hi₂⟩ := ih s₁ _ hi₁ (fun a ha => hord a (by simp [ha])) hB₁
+    refine ⟨s₂, ?_, by rw [hb₂, hb₁], hl₂, ?_⟩
     · simp only [HashMapAcc.addAll, h₁, obind_ok_eq, h₂]
     · simpa [add_assoc] using hi₂
 
 theorem HashMapAcc.run_go_spec (ok : MsmOK G cfg P) (hr0 : 0 < cfg.r) (hrB : cfg.r ≤ B ^ cfg.limbs)
     (hP : ∀ v < cfg.r, P (cfg.intoBigint v)) (adds : List (G × Nat)) (s : HashMapAcc G)
-    (total : G) (h : HashMapAcc.Inv cfg s total) (hord : ∀ a ∈ adds, cfg.r • a.1 = 0) :
+    (total : G) (h : HashMapAcc.Inv cfg s total) (hord : ∀ a ∈ adds, cfg.r • a.1 = 0)
+    (hB : HistBound s.buffer.length s.bufSize adds.length) :
     HashMapAcc.run.go cfg s adds = .ok (total + natPairSum adds) := by
-  obtain ⟨s', h₁, _, hi⟩ := HashMapAcc.addAll_inv ok hr0 hrB hP adds s total h hord
-  rw [HashMapAcc.run_go_eq, h₁, obind_ok_eq, HashMapAcc.finalize_inv ok hrB hP hi]
+  obtain ⟨s', h₁, _, hl, hi⟩ := HashMapAcc.addAll_inv ok hr0 hrB hP adds s total h hord hB
+  rw [HashMapAcc.run_go_eq, h₁, obind_ok_eq, HashMapAcc.finalize_inv ok hrB hP hi hl]
 
 theorem HashMapAcc.run_ok (ok : MsmOK G cfg P) (hr0 : 0 < cfg.r) (hrB : cfg.r ≤ B ^ cfg.limbs)
     (hP : ∀ v < cfg.r, P (cfg.intoBigint v)) (bufSize : Nat) (adds : List (G × Nat))
-    (hord : ∀ a ∈ adds, cfg.r • a.1 = 0) :
+    (hord : ∀ a ∈ adds, cfg.r • a.1 = 0)
+    (hB : adds.length < 2 ^ 64 ∨ (0 < bufSize ∧ bufSize < 2 ^ 64)) :
     HashMapAcc.run cfg bufSize adds = .ok (natPairSum adds) := by
   unfold HashMapAcc.run
-  rw [HashMapAcc.run_go_spec ok hr0 hrB hP adds _ 0 (HashMapAcc.new_inv bufSize) hord, zero_add]
+  rw [HashMapAcc.run_go_spec ok hr0 hrB hP adds _ 0 (HashMapAcc.new_inv bufSize) hord ?_, zero_add]
+  simp only [HashMapAcc.new, HistBound, List.length_nil, Nat.zero_add]
+  omega
 
 /-! ### the iteration order of the map is irrelevant -/
 
@@ -644,51 +715,57 @@ def HashMapAcc.Equiv (s s' : HashMapAcc G) : Prop :=
 theorem HashMapAcc.add_equiv (ok : MsmOK G cfg P) (hr0 : 0 < cfg.r) (hrB : cfg.r ≤ B ^ cfg.limbs)
     (hP : ∀ v < cfg.r, P (cfg.intoBigint v)) {s s' : HashMapAcc G}
     (he : HashMapAcc.Equiv s s') (hn : (s.buffer.map (·.1)).Nodup) (hlt : ∀ e ∈ s.buffer, e.2 < cfg.r)
-    (b : G) (k : Nat) :
+    (b : G) (k : Nat) (hlen : s.buffer.length + 1 < 2 ^ 64) :
     ∃ t t', s.add cfg b k = .ok t ∧ s'.add cfg b k = .ok t' ∧ HashMapAcc.Equiv t t' ∧
-      (t.buffer.map (·.1)).Nodup ∧ (∀ e ∈ t.buffer, e.2 < cfg.r) := by
+      (t.buffer.map (·.1)).Nodup ∧ (∀ e ∈ t.buffer, e.2 < cfg.r) ∧
+      t.bufSize = s.bufSize ∧ t.buffer.length ≤ s.buffer.length + 1 := by
   obtain ⟨hp, hres, hbs⟩ := he
   have hp' := upsert_perm cfg.r b k hp hn
   have hlt' := upsert_lt cfg.r hr0 b k s.buffer hlt
   have hn' := upsert_nodup cfg.r b k s.buffer hn
-  have hlen := hp'.length_eq
+  have hle := upsert_length_le cfg.r b k s.buffer
+  have hlen' := hp'.length_eq
   unfold HashMapAcc.add
   by_cases hfull : (upsert cfg.r b k s.buffer).length = s.bufSize
-  · have hfull' : (upsert cfg.r b k s'.buffer).length = s'.bufSize := by rw [← hlen, hfull, hbs]
+  · have hfull' : (upsert cfg.r b k s'.buffer).length = s'.bufSize := by rw [← hlen', hfull, hbs]
     simp only [hfull, hfull', if_true]
-    rw [HashMapAcc.flush_perm ok hrB hP hp' hlt', HashMapAcc.flush_ok ok hrB hP _ hlt', obind_ok_eq]
-    exact ⟨_, _, rfl, rfl, ⟨.refl _, by simp [hres], hbs⟩, by simp, by simp⟩
-  · have hfull' : ¬ (upsert cfg.r b k s'.buffer).length = s'.bufSize := by rw [← hlen, ← hbs]; exact hfull
+    rw [HashMapAcc.flush_perm ok hrB hP hp' hlt' (by omega),
+      HashMapAcc.flush_ok ok hrB hP _ hlt' (by omega), obind_ok_eq]
+    exact ⟨_, _, rfl, rfl, ⟨.refl _, by simp [hres], hbs⟩, by simp, by simp, rfl, by simp⟩
+  · have hfull' : ¬ (upsert cfg.r b k s'.buffer).length = s'.bufSize := by rw [← hlen', ← hbs]; exact hfull
     simp only [hfull, hfull', if_false]
-    exact ⟨_, _, rfl, rfl, ⟨hp', hres, hbs⟩, hn', hlt'⟩
+    exact ⟨_, _, rfl, rfl, ⟨hp', hres, hbs⟩, hn', hlt', rfl, hle⟩
 
 omit [DecidableEq G] in
 theorem HashMapAcc.finalize_equiv (ok : MsmOK G cfg P) (hrB : cfg.r ≤ B ^ cfg.limbs)
     (hP : ∀ v < cfg.r, P (cfg.intoBigint v)) {s s' : HashMapAcc G}
-    (he : HashMapAcc.Equiv s s') (hlt : ∀ e ∈ s.buffer, e.2 < cfg.r) :
+    (he : HashMapAcc.Equiv s s') (hlt : ∀ e ∈ s.buffer, e.2 < cfg.r) (hlen : s.buffer.length < 2 ^ 64) :
     s.finalize cfg = s'.finalize cfg := by
   obtain ⟨hp, hres, _⟩ := he
   have hemp : s'.buffer.isEmpty = s.buffer.isEmpty := by
     rw [Bool.eq_iff_iff, List.isEmpty_iff, List.isEmpty_iff]
     exact ⟨fun h => by rw [h] at hp; exact hp.eq_nil, fun h => by rw [h] at hp; exact hp.symm.eq_nil⟩
   unfold HashMapAcc.finalize
-  rw [hemp, HashMapAcc.flush_perm ok hrB hP hp hlt, hres]
+  rw [hemp, HashMapAcc.flush_perm ok hrB hP hp hlt hlen, hres]
 
 /-- whatever order the map is iterated in — i.e. from any reordering of the association list, at any
     point of the history — the outcome is the same -/
 theorem HashMapAcc.run_go_equiv (ok : MsmOK G cfg P) (hr0 : 0 < cfg.r) (hrB : cfg.r ≤ B ^ cfg.limbs)
     (hP : ∀ v < cfg.r, P (cfg.intoBigint v)) (adds : List (G × Nat)) :
     ∀ (s s' : HashMapAcc G), HashMapAcc.Equiv s s' → (s.buffer.map (·.1)).Nodup →
-      (∀ e ∈ s.buffer, e.2 < cfg.r) →
+      (∀ e ∈ s.buffer, e.2 < cfg.r) → HistBound s.buffer.length s.bufSize adds.length →
       HashMapAcc.run.go cfg s adds = HashMapAcc.run.go cfg s' adds := by
   induction adds with
-  | nil => intro s s' he _ hlt; exact HashMapAcc.finalize_equiv ok hrB hP he hlt
+  | nil => intro s s' he _ hlt hB; exact HashMapAcc.finalize_equiv ok hrB hP he hlt hB.zero
   | cons a adds ih =>
-    intro s s' he hn hlt
+    intro s s' he hn hlt hB
     obtain ⟨b, k⟩ := a
-    obtain ⟨t, t', h₁, h₂, he', hn', hlt'⟩ := HashMapAcc.add_equiv ok hr0 hrB hP he hn hlt b k
+    rw [List.length_cons] at hB
+    obtain ⟨t, t', h₁, h₂, he', hn', hlt', hbs, hle⟩ :=
+      HashMapAcc.add_equiv ok hr0 hrB hP he hn hlt b k hB.succ_lt
+    have hB₁ := HashMapAcc.histBound_step b k hB h₁ hbs hle
     simp only [HashMapAcc.run.go, h₁, h₂, obind_ok_eq]
-    exact ih t t' he' hn' hlt'
+    exact ih t t' he' hn' hlt' hB₁
 
 end HashMap
 
